@@ -3,8 +3,10 @@ module verif
 go 1.23.0
 
 require (
+	github.com/DataDog/datadog-go/v5 v5.6.0
 	github.com/anishathalye/porcupine v1.3.0
 	github.com/platinummonkey/go-concurrency-limits v0.0.0
+	github.com/rcrowley/go-metrics v0.0.0-20180503174638-e2704e165165
 	google.golang.org/grpc v1.71.1
 )
 
